@@ -30,7 +30,7 @@ type Harness struct {
 type PropDef struct {
 	ID          string
 	Funcs       []string // functions verified against their contracts (proof mode)
-	Unwind      []UnwindDef
+	Unwind      []*Unwinder
 	Tables      []string // names of table lemmas (see tables.go)
 	Harness     []Harness
 	BV          bool // re-prove the bit-algebra axioms
@@ -39,9 +39,12 @@ type PropDef struct {
 	Note        string
 }
 
-type UnwindDef struct {
+// Unwinder is a family of complete-unwinding jobs (one per finite configuration). Jobs are
+// independent and run in parallel worker processes (the term store is not thread safe).
+type Unwinder struct {
 	Name string
-	Run  func(c *checkCtx, tier string) []oblRes
+	Jobs func(tier string) []string
+	Run  func(c *checkCtx, job string) []oblRes
 }
 
 type oblRes struct {
@@ -54,6 +57,7 @@ type oblRes struct {
 	Model   string
 	Size    int
 	Trivial bool
+	Count   int // >1: this entry stands for Count syntactically discharged obligations of one kind
 }
 
 type checkCtx struct {
@@ -170,7 +174,7 @@ func cmdCheck(args []string) {
 	}
 	// 2. complete unwinding families and table lemmas
 	for _, u := range def.Unwind {
-		all = append(all, u.Run(c, *tier)...)
+		all = append(all, runUnwinder(c, u)...)
 	}
 	for _, t := range def.Tables {
 		all = append(all, runTableLemma(c, t)...)
@@ -211,11 +215,17 @@ func cmdCheck(args []string) {
 	byKind := map[string]int{}
 	byBackend := map[string]int{}
 	var lines []string
+	total := 0
 	for _, r := range all {
-		byKind[r.Kind]++
+		n := 1
+		if r.Count > 1 {
+			n = r.Count
+		}
+		total += n
+		byKind[r.Kind] += n
 		if r.Proved {
-			discharged++
-			byBackend[strings.Split(r.Solver, "(")[0]]++
+			discharged += n
+			byBackend[strings.Split(r.Solver, "(")[0]] += n
 			continue
 		}
 		if k := isKnown(r.Name); k != nil {
@@ -288,9 +298,9 @@ func cmdCheck(args []string) {
 		"violations":  violations,
 		"assumptions": assumptions,
 		"coverage": map[string]interface{}{
-			"obligations":              len(all),
+			"obligations":              total,
 			"discharged":               discharged,
-			"undecided":                len(all) - discharged,
+			"undecided":                total - discharged,
 			"functions_under_contract": funcsDone,
 			"by_kind":                  byKind,
 			"by_backend":               byBackend,
@@ -305,7 +315,7 @@ func cmdCheck(args []string) {
 	}
 	os.MkdirAll(filepath.Join(verifDir, "evidence"), 0o755)
 	writeJSON(filepath.Join(verifDir, "evidence", def.ID+".json"), ev)
-	fmt.Printf("%s: %d obligations, %d discharged, %d violations, %d known findings (%.1fs)\n", def.ID, len(all), discharged, violations, len(knownSeen), time.Since(t0).Seconds())
+	fmt.Printf("%s: %d obligations, %d discharged, %d violations, %d known findings (%.1fs)\n", def.ID, total, discharged, violations, len(knownSeen), time.Since(t0).Seconds())
 	if violations > 0 {
 		os.Exit(1)
 	}
@@ -439,4 +449,88 @@ func tail(s string, n int) string {
 		return s[len(s)-n:]
 	}
 	return s
+}
+
+// runUnwinder distributes the jobs of u over worker processes (`govc jobs <unwinder> <job>...`).
+func runUnwinder(c *checkCtx, u *Unwinder) []oblRes {
+	jobs := u.Jobs(c.Tier)
+	nw := 14
+	if len(jobs) < nw {
+		nw = len(jobs)
+	}
+	if nw <= 1 || os.Getenv("GOVC_NOPAR") != "" {
+		var out []oblRes
+		for _, j := range jobs {
+			out = append(out, u.Run(c, j)...)
+		}
+		return out
+	}
+	batches := make([][]string, nw)
+	for i, j := range jobs {
+		batches[i%nw] = append(batches[i%nw], j)
+	}
+	type res struct {
+		out []oblRes
+		err string
+	}
+	ch := make(chan res, nw)
+	self, _ := os.Executable()
+	for _, b := range batches {
+		go func(b []string) {
+			args := append([]string{"jobs", "-repo", c.Repo, "-tier", c.Tier, u.Name}, b...)
+			cmd := osexec.Command(self, args...)
+			var stdout, stderr bytes.Buffer
+			cmd.Stdout = &stdout
+			cmd.Stderr = &stderr
+			err := cmd.Run()
+			var out []oblRes
+			if jerr := json.Unmarshal(stdout.Bytes(), &out); jerr != nil || err != nil {
+				ch <- res{err: fmt.Sprintf("worker failed for jobs %v: %v %v: %s", b, err, jerr, tail(stderr.String(), 500))}
+				return
+			}
+			ch <- res{out: out}
+		}(b)
+	}
+	var out []oblRes
+	for range batches {
+		r := <-ch
+		if r.err != "" {
+			out = append(out, oblRes{Name: "config/" + u.Name + "/worker", Kind: "config", Proved: false, Output: r.err})
+		}
+		out = append(out, r.out...)
+	}
+	sort.SliceStable(out, func(i, j int) bool { return out[i].Name < out[j].Name })
+	return out
+}
+
+func cmdJobs(args []string) {
+	fs := flag.NewFlagSet("jobs", flag.ExitOnError)
+	repo := fs.String("repo", "/repo", "repository")
+	tier := fs.String("tier", "quick", "tier")
+	fs.Parse(args)
+	u := unwinders[fs.Arg(0)]
+	if u == nil {
+		fmt.Fprintln(os.Stderr, "unknown unwinder", fs.Arg(0))
+		os.Exit(2)
+	}
+	p, err := exec.Load(*repo)
+	if err != nil {
+		fmt.Fprintln(os.Stderr, "load:", err)
+		os.Exit(2)
+	}
+	if err := p.RunInit(); err != nil {
+		fmt.Fprintln(os.Stderr, err)
+		os.Exit(2)
+	}
+	to := 10 * time.Second
+	if *tier == "thorough" {
+		to = 60 * time.Second
+	}
+	c := &checkCtx{P: p, Repo: *repo, Tier: *tier, cfg: &exec.SolverCfg{Timeout: to, Workers: 3}}
+	var out []oblRes
+	for _, j := range fs.Args()[1:] {
+		out = append(out, u.Run(c, j)...)
+	}
+	data, _ := json.Marshal(out)
+	os.Stdout.Write(data)
 }
